@@ -896,10 +896,12 @@ func (s *c01Sched) pickFee(x int) chainfee.SatPerKWeight {
 	r := s.r
 	ch := s.p.Ch[x]
 	cur := ch.commitChains.Local.tip().feePerKw
-	switch r.Intn(8) {
+	switch r.Intn(9) {
 	case 0:
-		return c01Pick(r, chainfee.SatPerKWeight(250), 252, 253, 254, 1, 0)
-	case 1, 2:
+		// around the relay floor; below it every later signature is refused
+		// (feeFloor) until the update is overwritten, so keep that rare
+		return c01Pick(r, chainfee.SatPerKWeight(253), 253, 254, 255, 252, 250, 1, 0)
+	case 1, 2, 8:
 		return cur + chainfee.SatPerKWeight(r.Intn(7)) - 3
 	case 3:
 		return cur * 2
